@@ -407,8 +407,8 @@ def build(prog):
             c = (t_ + (xx - x0_) ** 2 == 1 / 16)
             pep.add_constraint(c)
             b.held["t_pq"] = t_
-        elif code == "pS":          # an (active) condition written with large coefficients: 2^16 |x - x0|^2 <= 2^16 / 64
-            c = (65536 * (xx - x0_) ** 2 <= 1024)
+        elif code == "pS":          # an (active) condition written with large coefficients: 2^16 |x - x0|^2 <= 2^16 / 1024
+            c = (65536 * (xx - x0_) ** 2 <= 64)
             pep.add_constraint(c)
         elif code == "pg":
             c = (2 * (xx * x0_) >= -7)          # 'greater than' written by the user, mirrored key shape
@@ -606,6 +606,57 @@ def probe_cvxpy(wrapper, NP, NE):
     return dict(native=native, msizes=sizes, obj=obj)
 
 
+def _too_large(pep, items, held, solved, limit=1500.0):
+    """Magnitude sensor (floats): 1 if evaluating some sent / held expression at the returned instance involves partial
+    sums beyond `limit` (a free variable the solver left at a huge value, or a declared bound that is not enforced).
+    TLC's integers are 32-bit and the fixed-point unit is 1e-6: the instance-side clauses of such a solve are not
+    computed (SolveTrace.tla, primRange); the certificate side has its own guard (termsOK / clause c01h)."""
+    from PEPit.point import Point
+    from PEPit.expression import Expression
+    from PEPit.constraint import Constraint
+    from PEPit.psd_matrix import PSDMatrix
+    if not solved:
+        return 0
+    try:
+        G = np.asarray(pep.G_value, dtype=float)
+        F = np.asarray(pep.F_value, dtype=float)
+    except Exception:
+        return 0
+
+    def terms(e):
+        out = []
+        for k, w in e.decomposition_dict.items():
+            if isinstance(k, Expression):
+                out.append((("e", k.counter), float(w), float(F[k.counter]) if k.counter < len(F) else 0.0))
+            elif isinstance(k, tuple):
+                i, j = k[0].counter, k[1].counter
+                out.append((("g",) + tuple(sorted((i, j))), float(w), float(G[i, j]) if max(i, j) < G.shape[0] else 0.0))
+            else:
+                out.append((("c",), float(w), 1.0))
+        return out
+
+    def exprs(o):
+        if isinstance(o, Constraint):
+            return [o.expression]
+        if isinstance(o, PSDMatrix):
+            return [o[i, j] for i in range(o.shape[0]) for j in range(o.shape[1])]
+        if isinstance(o, Expression):
+            return [o]
+        return []
+    try:
+        for it, o in items:
+            for e in exprs(o):
+                if sum(abs(w) * abs(v) for _, w, v in terms(e)) > limit:
+                    return 1
+        for o in held.values():
+            for e in exprs(o):
+                if sum(abs(w) * abs(v) for _, w, v in terms(e)) > limit:
+                    return 1
+    except Exception:
+        return 0
+    return 0
+
+
 def observe(pep, ret, held, exact=False, with_native=True, extra_evals=True, user_decl=(), part_blocks=()):
     """Everything a finished solve exposes, as ints/strings."""
     from PEPit.point import Point
@@ -758,6 +809,7 @@ def observe(pep, ret, held, exact=False, with_native=True, extra_evals=True, use
         hv.append(rec)
     out["held"] = hv
     out["items"] = [it for it, o in items]
+    out["toolarge"] = _too_large(pep, items, held, solved)
     if with_native and w is not None and pep.wrapper_name == "cvxpy" and getattr(w, "prob", None) is not None:
         out.update(probe_cvxpy(w, NP, NE))
     else:
